@@ -227,7 +227,7 @@ fn build_runs(thorough: bool, rng: &mut Rng) -> Vec<(RunCfg, Expect)> {
             if !thorough && (t == 3 || t == 16) {
                 continue;
             }
-            let mut c = RunCfg::new(bt(400), strat, t);
+            let mut c = RunCfg::new(bt(4000), strat, t);
             c.timeout_ms = Some(200);
             c.record = false;
             c.closure_cap = 100;
@@ -270,7 +270,8 @@ fn build_runs(thorough: bool, rng: &mut Rng) -> Vec<(RunCfg, Expect)> {
         if t >= 2 {
             let mut c = small(vec![p(0, 0, 0)]);
             c.model.panic_thread = Some("checker-1".into());
-            c.timeout_ms = Some(30_000);
+            c.timeout_ms = Some(12_000);
+            c.watchdog_ms = 5_000;
             c.record = false;
             v.push((c, Expect::SimOnePanics));
         }
